@@ -257,6 +257,12 @@ ROUND10 = {
 }
 for _k, _v in ROUND10.items():
     CLAIMED[_k]["text"] += _v
+ROUND11 = {
+ "C13": " For e2fsck -n a consent analysis (least fixpoint over the call graph and per-function CFGs) decides that every ext2fs_mark_super_dirty() (C13.h), every write request e2fsck sends itself (C13.i) and every library writer it calls (C13.j; 18 calls gated through values are listed with the reason, each read) is reached only past something -n cannot give: !(READONLY/NO), an option PRS refuses or clears with -n, an accepted fix_problem()/ask(), or in-memory state set only past one; seven genuine defects repaired.",
+ "C15": " With nothing left for it the EA block is released, not kept (C15.n; genuine defect repaired).",
+}
+for _k, _v in ROUND11.items():
+    CLAIMED[_k]["text"] += _v
 for _k in CLAIMED:
     CLAIMED[_k]["text"] += " Names of locals, parameters and file-local functions are mapped onto the pinned tree's before any rule runs (renaming all of them is silent)."
 
